@@ -9,20 +9,52 @@ CLAIMED = {
   "note": "Trusted: Lean kernel + {propext, Classical.choice, Quot.sound}; constants translator; line-protocol glue; the sampled correspondence between the hand-written Encoder/Decoder/Number models and the Rust code. Domain hypothesis `goodTop` = field widths of the format (count < 2^29, nested payload < 2^28 bytes), valid UTF-8, sorted unique keys (BTreeMap).",
  },
  "C05": {
-  "text": "Byte-level Lean models of every accessor (same running jentry/value/key offsets as functions.rs and iterator.rs, slices that can panic made explicit) and tree-level spec functions. Proved, unbounded: iterate_array/iterate_object_entries on the README layout yield exactly the members; get_jentry_by_index lands on the sum of earlier payload lengths; array_length and get_by_index refine the tree functions for every index and hand back canonical documents. All other accessors (get_by_name incl. ignore-case, key paths with negative indices, keys, each, values, type_of, casts, key existence, string traversal) are tied by correspondence (model vs Rust) and decided by the spec oracle (tree answer vs Rust) over all indices, all keys with case variants and prefixes, and key paths drawn from the document.",
-  "note": "Refinement theorems exist for array_length and get_by_index only so far; for the other accessors the claim rests on the sampled oracle, not on a theorem (listed as not_yet_proved in the evidence). to_f64/to_str on floats depend on ryu / str::parse, modelled (parseF64 validated against Rust by the strf64 op).",
+  "text": 'Byte-level Lean models of every accessor (same running jentry/value/key offsets as functions.rs and iterator.rs, slices that can panic made explicit) and tree-level spec functions. Refinement theorems, unbounded over all good documents and all arguments, for every accessor named in the property (index, name incl. ignore-case rule, key path incl. negative indices, length, keys, pairs, elements, type name, as_* casts, key existence, string traversal) and the corollary that returned sub-values are canonical documents. Correspondence ties the models to the Rust; the spec functions are also evaluated against the real code.',
+  "note": "to_* casts from strings depend on Rust's str::parse (modelled and validated by dedicated ops). The model covers the JSONB branch; the text branch is C11.",
  },
  "C06": {
-  "text": "Byte-level Lean models of every editor (iterate inputs, push raw entries into Array/ObjectBuilder models, build_into the caller's buffer; i32 index arithmetic with overflow as an explicit panic; error codes InvalidJsonType/InvalidObject/ObjectDuplicateKey) and tree-level spec functions for each. Proved, unbounded: builder frame/layout theorem with nested builders, array-from-raw-entries = canonical array, delete_by_index for every i32, concat of arrays. All editors are run with empty, random and document-shaped prior buffers; the real code's appended bytes are compared with the model (correspondence) and with encodeSpec of the tree edit (oracle), documented errors must leave the buffer untouched.",
-  "note": "Defect D18 (build_object wrote keys in argument order) repaired in /repo. Refinement theorems cover the array editors named above; the other editors rest on correspondence + oracle (listed in evidence as not_yet_proved).",
+  "text": 'Byte-level models of every editor and tree-level spec functions, with refinement theorems into any prior buffer for ALL editors of the property (concat 5 cases, delete by name/index/key path, array_insert with clamping, object insert/update/delete/pick, strip_nulls, build_array/build_object) including the documented error outcomes, built on a proved frame/layout theorem for ArrayBuilder/ObjectBuilder with nested builders. Real code is run with empty, random and document-shaped prior buffers and compared with model and spec; documented errors must leave the buffer untouched.',
+  "note": "Defect D18 (build_object wrote keys in argument order) repaired in /repo. Side conditions of the theorems are the format's field widths on the result.",
+ },
+ "C12": {
+  "text": "The PostgreSQL @> rules as a tree-level function with proved characterisations (array rule, order and multiplicity ignored, object rule, bare scalar at the top, scalars only equals), scalar equality = compare equality (numbers by value across encodings), reflexivity and transitivity for all good documents (unbounded induction). The byte-level model of contains_jsonb (offset walkers, scalar_eq) is tied to the Rust by correspondence; the real code is compared with the spec function on derived pairs (dropped/reordered/duplicated/nested/re-typed members) and reflexivity/transitivity are evaluated on the real code for triples.",
+  "note": "Defect D9 (raw payload comparison of numbers) repaired in /repo. The refinement between the byte walker and the tree function is not proved; it rests on correspondence and the oracle.",
  },
  "C13": {
-  "text": "Spec functions distinct / intersection / except / overlap on element lists with identity = same entry word and payload; proved laws: first occurrence, no repeats, idempotence, intersection/except partition the first list by one decision sequence, overlap iff intersection non-empty; byte-level array_distinct refines the spec and yields a canonical array. Correspondence and oracle over pairs of derived documents with heavy duplication, nested equal/unequal containers, scalar and object operands, empty arrays.",
-  "note": "Byte-level refinement is proved for array_distinct only; intersection/except/overlap byte walkers are tied by correspondence and decided by the spec oracle.",
+  "text": 'Spec functions on element lists with identity = same entry word and payload; proved laws (first occurrence, idempotence, partition, overlap iff intersection non-empty) and byte-level refinement of all four functions for array, object and scalar operands (count map = multiset of identities), results canonical arrays.',
+  "note": '—',
  },
  "C14": {
   "text": "The unchanged code violates this property in three specific ways (genuine defect D14, not a small repair: the key format would have to change). Each is proved as a negation theorem with a concrete witness evaluated by the Lean kernel on the byte-level model of convert_to_comparable, replayed on the real code from corpus/C14, and listed in known_findings.json with a narrow matcher (class of the first difference found by walking the two documents in compare order). Every pair of derived documents is checked on the real code (key order vs compare); a disagreement outside the three classes is a VIOLATION. Key bytes themselves are tied by correspondence (with prefixes).",
   "note": "Level is proof for the negations; the positive embedding theorem on the restricted domain is still open, so outside the finding classes the claim rests on the sampled oracle.",
+ },
+ "C04": {
+  "text": 'Refinement theorem: the byte-level model of compare (compare_scalar/container/array/object with their separately tracked offsets) returns exactly the documented comparison cmpJV on the encodings of any two good documents; cmpJV proved reflexive, antisymmetric, transitive, Equal iff equal JSON values (numbers by exact value), ranking of kinds, element-wise-then-length for arrays. Order laws are also evaluated on the real code for derived triples (cmplaws).',
+  "note": "Relies on C18's exact number order (defect D10 repaired). The text/JSONB mixing of compare's arguments is covered under C11.",
+ },
+ "C02": {
+  "text": 'Model of parser.rs + util.rs as written, with every index/slice/unwrap/checked subtraction an explicit panic outcome: proved total (no panic for any byte string), fuel adequate, integers exact, complete on compact RFC 8259 renderings of arbitrary trees. Correspondence on strict and lenient renderings (whitespace, escape spellings incl. surrogate pairs and \\u{XXXX}, number spellings around 2^63/2^64/1e400/subnormals), single-token corruptions, truncations at every offset of tricky strings, token soups. Oracles: the intended value shipped with each generated text (jexpect) and an independent strict RFC 8259 reader in Lean (spec:jparse: whatever it accepts must be accepted with the same value).',
+  "note": 'Float rounding is exact big-Nat arithmetic by construction (F64.ofDecimal) and validated against fast_float2; the relaxed-language soundness direction is decided by correspondence only.',
+ },
+ "C03": {
+  "text": "Byte-level model of to_string/to_pretty_string (container_to_string walkers, escape_scalar_string) and an independent strict RFC 8259 parser in Lean. Per case: the real text equals the model text (correspondence), the Lean strict parser reads the model text back to a value equal to the document, re-encoding is byte-identical when non-negative integers are unsigned, pretty = compact modulo insignificant whitespace; on the Rust side serde_json and parse_value judge the real text, plus the two-space / one-member-per-line shape. ryu's output is validated per instance (grammar and exact value).",
+  "note": 'Defect D8 (control characters emitted raw) repaired in /repo. The general theorems (escape inverse, document-level) are being added; until then the claim rests on the per-case oracle.',
+ },
+ "C08": {
+  "text": 'Model of selector.rs (position frontier with raw offsets, select_* walkers, i64 index arithmetic, filter_expr dispatch, writers) and a tree-level denotational spec evalPaths. Proved: item-mode writers only append, indices in range without overflow, unsupported expressions are errors not panics, scalar roots. Correspondence (model vs Rust) and spec oracle (evalPaths on the decoded tree, re-encoded, vs Rust) in all four modes over paths drawn from each document (names, wildcards, index lists/ranges with last, nested filters with &&/||/exists, $-rooted operands, predicates).',
+  "note": "Defects D6 (todo!()), index overflow, D13 (scalar root) repaired in /repo. The refinement find_positions = evalPaths is not proved; cross-kind comparisons follow the code's derived order (not judged by the property).",
+ },
+ "C09": {
+  "text": 'Model of jsonpath/parser.rs over a model of the nom 7.1.3 combinators (ordered choice, Failure propagation through cut, overflow-checked number recognisers): proved total for every byte string, print->parse identity for step sequences. Oracles: generated paths in random spacing/keyword-case/quoting layouts with the intended AST shipped in the request (jpexpect), print->parse round trip on the real code (jproundtrip), correspondence on corruptions, truncations and token soups.',
+  "note": 'Five defects repaired in /repo (unterminated quote panic, empty string, float literals, last - 2147483648, tab/newline/& as name delimiters, negative literal as left operand).',
+ },
+ "C15": {
+  "text": "Theorems on the selector model: first = all truncated to one, mixed rule, exists iff all-mode non-empty, offsets delimit items, predicate paths give path_match's boolean in every mode with exists true. The modes oracle evaluates all of the property's clauses on the real code (four modes, exists, predicate_match and the five convenience functions) for every generated (path, document).",
+  "note": 'array-mode = the all-mode items is evaluated on the real code, not proved.',
+ },
+ "C16": {
+  "text": 'Model of keypath.rs over the nom model: proved total for every byte string; print->parse identity for all key paths without escapes; empty list. Oracles: generated key paths in random spacing with the intended elements (kpexpect), round trip on the real code, correspondence on corruptions/truncations/soups.',
+  "note": 'Defects D4 (unterminated quote panic, empty string rejected) and tab/newline delimiters repaired in /repo.',
  },
  "C10": {
   "text": "Theorem: for every byte string (and every fuel) the decoder model reaches no panic site; valid encodings decode without running out of fuel. The model mirrors de.rs/number.rs call by call with every unwrap/index/assert as an explicit panic outcome; correspondence runs truncations, bit flips, substitutions, insert/delete, rewritten count/type/length words and random bytes through parse_jsonb and the model. Any panic of the real code is reported as a violation.",
